@@ -28,7 +28,7 @@ fn build(c: &GenConfig) -> Result<TrippyConfig, String> {
         let _ = std::fs::create_dir_all(format!("{}/replays", simcore::verif_dir()));
         std::fs::write(path, c.toml()).map_err(|e| e.to_string())?;
         let argv = c.argv(path);
-        let args = Args::try_parse_from(&argv).map_err(|e| format!("cli: {}", e.kind()))?;
+        let args = Args::try_parse_from(&argv).map_err(|e| format!("cli: {:?}", e.kind()))?;
         std::panic::catch_unwind(std::panic::AssertUnwindSafe(|| TrippyConfig::from(args, &Privilege::new(true, false), 1000)))
             .map_err(|_| "panic".to_string())?
             .map_err(|e| format!("config: {e}"))
@@ -87,6 +87,12 @@ pub fn run_case(seed: u64, _worker: usize) -> Option<(String, String)> {
     };
     for (what, a, b) in checks {
         let (ra, rb) = (build(&a), build(&b));
+        // clap's `conflicts_with` rules speak about options that are BOTH on the command
+        // line (--source-address / --interface): moving one of them from the file to the
+        // command line is then not the same input, and the property does not relate the two
+        if what == "file-as-cli" && ra.is_ok() && matches!(&rb, Err(e) if e == "cli: ArgumentConflict") {
+            continue;
+        }
         if let Some(d) = differs(&ra, &rb) {
             return Some((
                 format!("c16.precedence.{what}.{}", o.name),
